@@ -26,7 +26,7 @@ PLAN = {
 }
 CLAIM = {
     "engine": "libfuzzer-asan + rapidcheck-tape",
-    "technique": "coverage-guided fuzzing (libFuzzer, ASan+UBSan) of the whole pipeline at byte level and with a structure-aware hostile-edit generator, plus rapidcheck runs of the same generator; crash/sanitizer/exception/time-out oracle with side conditions",
+    "technique": "coverage-guided fuzzing (libFuzzer, ASan+UBSan) of the whole pipeline at byte level and with a structure-aware hostile-edit generator, plus rapidcheck runs of the same generator on the sanitised build and on the unsanitised build with an 8 MiB stack; crash/sanitizer/exception/time-out oracle with side conditions",
     "text": "Every input (random almost-valid documents with hostile edits, coverage-guided byte mutations of the repository's test resources) is pushed through parse, validate, print, re-parse, queries, import resolution and flattening, analysis and C/Python generation under ASan+UBSan; any signal, sanitizer report, uncaught exception, confirmed stack exhaustion or confirmed hang is a violation, as are unexplained failures and incoherent issue lists. Exploration only: it cannot show absence, and deep states need the structure-aware generator to aim at them.",
-    "note": "Trusts the sanitizers to make memory errors and UB visible; libxml2 2.13.9 as linked by the baseline; stack-overflow and time-out reports count only after confirmation on the unsanitised build (8 MiB stack, 300 s).",
+    "note": "Trusts the sanitizers to make memory errors and UB visible (the unsanitised 8 MiB-stack stage adds stack exhaustion that grows with the input, which the 1 GiB stack of the sanitised workers hides); libxml2 2.13.9 as linked by the baseline; stack-overflow and time-out reports count only after confirmation on the unsanitised build (8 MiB stack, 300 s).",
 }
